@@ -8,6 +8,7 @@ import (
 	"errors"
 	"fmt"
 	"os"
+	"strings"
 	"testing"
 	"time"
 
@@ -69,6 +70,11 @@ func genScenario(t *rapid.T) *modsim.Scenario {
 			if w.Kind == "service" && w.Mode == "finish" && rapid.Bool().Draw(t, "svcfails") {
 				// the service worker fails and sits in its back-off wait (longer than the promptness bound) when the module stops
 				w.Fail, w.BackoffMS, w.HoldUS = true, 6000, 200
+			}
+			if rapid.IntRange(0, 5).Draw(t, "panics") == 0 && !w.Fail && !strings.HasPrefix(w.Kind, "sig_mt") {
+				// (signalled microtasks run in the caller's own goroutine: a panic there is not managed code)
+				// the item ends in a panic instead of returning: it has ended all the same and must be discounted
+				w.Panic = rapid.SampledFrom(modsim.PanicKinds).Draw(t, "panickind")
 			}
 			if w.Kind == "hook" && rapid.Bool().Draw(t, "foreignsource") {
 				w.On = sc.Modules[rapid.IntRange(0, len(sc.Modules)-1).Draw(t, "src")].Name
